@@ -207,38 +207,45 @@ Definition remove_from_tier (v : variant) (s : sorter) (t : tinfo) (k : pkey) (o
   | _, _ => mkSorter (aset bytes_eqb (ti_name t) t' (so_tiers s)) (so_sorted s)
   end.
 
+(* the tier a policy goes to, created as an invalid placeholder (NewTierInfo) if it is unknown *)
+Definition ensure_tier (s : sorter) (tname : bytes) : sorter * tinfo :=
+  match alookup bytes_eqb tname (so_tiers s) with
+  | Some t => (s, t)
+  | None => let t := new_tinfo tname in
+            (mkSorter (aset bytes_eqb tname t (so_tiers s)) (bt_insert tier_less (tkey_of t) (so_sorted s)), t)
+  end.
+
+(* store (k, m) in tier t: delete the old tree entry first, then ReplaceOrInsert; second result = "changed" *)
+Definition put_in_tier (v : variant) (s : sorter) (tname : bytes) (t : tinfo) (k : pkey) (m : meta) : sorter * bool :=
+  let oldp := alookup pkey_eqb k (ti_pols t) in
+  let d2 := match oldp with Some om => negb (meta_eqb om m) | None => true end in
+  let sorted1 := match oldp with Some om => bt_delete (polkv_less v) (k, om) (ti_sorted t) | None => ti_sorted t end in
+  let t' := mkTI (ti_name t) (ti_valid t) (ti_order t) (ti_action t)
+                 (aset pkey_eqb k m (ti_pols t)) (bt_insert (polkv_less v) (k, m) sorted1) in
+  (mkSorter (aset bytes_eqb tname t' (so_tiers s)) (so_sorted s), d2).
+
+(* tier changed: remove from the old tier first *)
+Definition leave_old_tier (v : variant) (s : sorter) (k : pkey) (tname : bytes) : sorter * bool :=
+  match tier_holding s k with
+  | Some ot =>
+      if bytes_eqb (ti_name ot) tname then (s, false)
+      else match alookup pkey_eqb k (ti_pols ot) with
+           | Some om => (remove_from_tier v s ot k om, true)
+           | None => (s, true)
+           end
+  | None => (s, false)
+  end.
+
 (* UpdatePolicy(key, newPolicy); returns the new sorter and the `dirty` result *)
 Definition sorter_update_policy (v : variant) (s : sorter) (k : pkey) (nm : option meta) : sorter * bool :=
-  let old_tier := tier_holding s k in
   match nm with
   | Some m =>
-      let tname := m_tier m in
-      (* tier changed: remove from the old tier first *)
-      let '(s1, d1) :=
-        match old_tier with
-        | Some ot =>
-            if bytes_eqb (ti_name ot) tname then (s, false)
-            else match alookup pkey_eqb k (ti_pols ot) with
-                 | Some om => (remove_from_tier v s ot k om, true)
-                 | None => (s, true)
-                 end
-        | None => (s, false)
-        end in
-      (* add to the new tier, creating an invalid placeholder tier if it is unknown *)
-      let '(s2, t) :=
-        match alookup bytes_eqb tname (so_tiers s1) with
-        | Some t => (s1, t)
-        | None => let t := new_tinfo tname in
-                  (mkSorter (aset bytes_eqb tname t (so_tiers s1)) (bt_insert tier_less (tkey_of t) (so_sorted s1)), t)
-        end in
-      let oldp := alookup pkey_eqb k (ti_pols t) in
-      let d2 := match oldp with Some om => negb (meta_eqb om m) | None => true end in
-      let sorted1 := match oldp with Some om => bt_delete (polkv_less v) (k, om) (ti_sorted t) | None => ti_sorted t end in
-      let t' := mkTI (ti_name t) (ti_valid t) (ti_order t) (ti_action t)
-                     (aset pkey_eqb k m (ti_pols t)) (bt_insert (polkv_less v) (k, m) sorted1) in
-      (mkSorter (aset bytes_eqb tname t' (so_tiers s2)) (so_sorted s2), d1 || d2)
+      let '(s1, d1) := leave_old_tier v s k (m_tier m) in
+      let '(s2, t) := ensure_tier s1 (m_tier m) in
+      let '(s3, d2) := put_in_tier v s2 (m_tier m) t k m in
+      (s3, d1 || d2)
   | None =>
-      match old_tier with
+      match tier_holding s k with
       | Some ot =>
           match alookup pkey_eqb k (ti_pols ot) with
           | Some om => (remove_from_tier v s ot k om, true)
